@@ -53,6 +53,14 @@ func c02Check(c *fw.Ctx, toks []vtok, origin string) {
 			c.Violation("valid-sentence-miscompiled", "%sParseString(%q): %s; compiled [%s], post-order of the tree is [%s]", origin, text, msg, programStr(p.ResultTokens()), rtokStr(postorderOf(tree)))
 		}
 	case "reject":
+		if err != nil {
+			// resubmitting the same rejected text to the same parser must reject it again
+			var err2 error
+			if pv := fw.Try(func() { err2 = p.ParseString(text) }); pv != nil || err2 == nil {
+				c.Violation("rejected-input-accepted-on-resubmission", "%sParseString(%q) is rejected (%s) but the same parser accepts the same text when it is submitted again (panic %v) and exposes [%s]", origin, text, errStr(err), pv, programStr(p.ResultTokens()))
+				return
+			}
+		}
 		if err == nil {
 			c.Violation(c02AcceptSig(toks), "%sParseString(%q) accepts a token sequence that is not a sentence of the grammar and compiles it to [%s]", origin, text, programStr(p.ResultTokens()))
 			return
